@@ -9,7 +9,9 @@ EXTENDS Naturals, Sequences, FiniteSets, TLC
 
 CONSTANTS NZooms,       \* 0..2 zoom levels
           IsBed,        \* bigBed stores an autoSql text
-          HeaderFirst   \* FALSE = the code; TRUE = a mutated writer that writes the real header early (vacuity guard)
+          HeaderFirst,  \* FALSE = the code; TRUE = a mutated writer that writes the real header early (vacuity guard)
+          Stale,        \* TRUE: the destination already holds ANOTHER complete file (every region "old") when the write starts
+          SkipBlank     \* FALSE = the code; TRUE = a mutated writer that does not blank the header first (vacuity guard for StaleSafe)
 
 Regions == {"hdr", "asql", "summary", "count", "data", "ctree", "index", "zdata1", "zindex1", "zdata2", "zindex2", "trailer"}
 ZoomRegs == (IF NZooms >= 1 THEN {"zdata1", "zindex1"} ELSE {}) \cup (IF NZooms >= 2 THEN {"zdata2", "zindex2"} ELSE {})
@@ -19,7 +21,7 @@ Advertised == {"data", "ctree", "index"} \cup ZoomRegs \cup (IF IsBed THEN {"asq
 
 \* the writer's programme: <<region, content>>
 Prog ==
-  LET pre == << <<"hdr", "blank">> >> \o (IF IsBed THEN << <<"asql", "final">> >> ELSE <<>>) \o << <<"summary", "blank">>, <<"count", "blank">> >>
+  LET pre == (IF SkipBlank THEN <<>> ELSE << <<"hdr", "blank">> >>) \o (IF IsBed THEN << <<"asql", "final">> >> ELSE <<>>) \o << <<"summary", "blank">>, <<"count", "blank">> >>
       body == << <<"data", "final">>, <<"ctree", "final">>, <<"index", "final">> >>
       z1 == IF NZooms >= 1 THEN << <<"zdata1", "final">>, <<"zindex1", "final">> >> ELSE <<>>
       z2 == IF NZooms >= 2 THEN << <<"zdata2", "final">>, <<"zindex2", "final">> >> ELSE <<>>
@@ -28,7 +30,7 @@ Prog ==
 
 VARIABLES st, pc, crashed
 vars == <<st, pc, crashed>>
-Init == st = [r \in Regions |-> "none"] /\ pc = 1 /\ crashed = FALSE
+Init == st = [r \in Regions |-> IF Stale THEN "old" ELSE "none"] /\ pc = 1 /\ crashed = FALSE
 Step == /\ ~crashed /\ pc <= Len(Prog)
         /\ st' = [st EXCEPT ![Prog[pc][1]] = Prog[pc][2]] /\ pc' = pc + 1 /\ UNCHANGED crashed
 Crash == /\ ~crashed /\ crashed' = TRUE /\ UNCHANGED <<st, pc>>
@@ -37,5 +39,8 @@ Spec == Init /\ [][Next]_vars
 
 ReaderAccepts == st["hdr"] = "final"
 PrefixSafe == ReaderAccepts => \A r \in Advertised : st[r] = "final"
+\* over an older complete file: as long as the OLD header is what a reader sees, everything the old file advertises is untouched
+\* (an accepted crash image serves exactly the old file or exactly the new one, never a mixture)
+StaleSafe == st["hdr"] = "old" => \A r \in Advertised : st[r] = "old"
 Complete == pc > Len(Prog) => \A r \in Regions \ ((IF IsBed THEN {} ELSE {"asql"}) \cup ({"zdata1", "zindex1", "zdata2", "zindex2"} \ ZoomRegs)) : st[r] = "final"
 =============================================================================
